@@ -267,6 +267,24 @@ claim("C10", "translation_validation", "Lean 4 theorems: every PDE class's rate 
       "only their composition, parameters and boundary-condition routing are modelled.",
       "DESIGN.md section 6, C10; notes/C10.md")
 
+claim("C19", "proof", "Lean 4 theorems about the coordinate-system bases, the component order and the conversion to Cartesian components + model/code correspondence",
+      "Jacobians, scale factors and basis rotations of polar, cylindrical, spherical, bipolar and bispherical coordinates, the "
+      "component order (axes ++ axes_symmetric), access by name/index, from_expression, the einsum contraction patterns of "
+      "dot/outer and the conversion of vector/tensor components to Cartesian ones are modelled as written "
+      "(Model/Coords.lean). 69 theorems: every basis is orthonormal and right-handed and equals the normalised Jacobian "
+      "columns, metric = Gram matrix of the Jacobian, det = volume factor, the Jacobians are the derivatives of the coordinate "
+      "maps over the reals, component-order tables, order consistency for polar/spherical/Cartesian grids, unit fields map to "
+      "basis vectors, products contract adjacent indices and are invariant under any orthonormal basis change, conversion "
+      "commutes with divergence and gradient for all polynomial fields (derivation algebra / MvPolynomial). For cylindrical "
+      "grids the full order-consistency statement is FALSE on this tree (known finding F7): the witnesses are theorems "
+      "(order_inconsistent_cyl, cyl_axial_unit_field_maps_to_azimuthal, ...) next to the partial statement that does hold. The "
+      "harness compares coordinate systems, _vector_to_cartesian, field access, products (numpy and compiled) and "
+      "interpolate_to_grid conversions with the model and monitors commutation with operators on the real code.",
+      COMMON_NOTE + "Partial: `commutes up to discretisation error` is validated numerically (tolerance 8% of the field scale, "
+      "measured <= 2%); trigonometric functions are parameters (c,s pairs with c^2+s^2=1); tensor conversion exists only in "
+      "the model (the code raises NotImplementedError); one known finding (cylindrical component order).",
+      "DESIGN.md section 6, C19; notes/C19.md")
+
 # properties not (yet) decided by the machinery
 NOT_APPLICABLE = {}
 
